@@ -15,6 +15,8 @@ pub mod test_helpers;
 
 pub use behaviour::{Behaviour, PartitionBehaviourEvent};
 pub use manager::TopologyManager;
+#[cfg(sierra_db_sierradb_verif)]
+pub use manager::verif_hooks;
 
 pub trait ClusterKey: Clone + Ord + Hash + Send + Serialize + DeserializeOwned + 'static {
     fn id(&self) -> ActorId;
